@@ -283,6 +283,28 @@ def run_case(case):
             raise HarnessError("resolver disagrees with model under the true root (collision or oracle bug)")
         if root == ref2.root_hash and want != m2.get(key, b""):
             raise HarnessError("resolver disagrees with model 2 under the true root")
+    # ---- (5) the caller scribbles on the returned proof; later proofs must be unaffected ----
+    for node in proof:
+        if isinstance(node, list) and node:
+            node[-1] = b"scribbled-by-the-caller"
+            node[0] = b"\x20"
+    again = impl("get_proof-never-raises", t1.get_proof, key)
+    got = impl("proof-complete", HexaryTrie.get_from_proof, t1.root_hash, key, again)
+    expect_eq("proof-complete", got, m1.get(key, b""), f"get_from_proof of a second honest proof for {key!r} "
+              "(after the caller modified the first returned proof in place)")
+    # ---- (6) the same trie object pointed at another root --------------------------------
+    if mode == 0:
+        db1.update(db2)
+        t1.root_hash = ref2.root_hash
+        for kk in (key, key2):
+            pr = impl("get_proof-never-raises", t1.get_proof, kk)
+            encs = {n.enc for n in ref2.path_nodes(nibbles_of(kk))}
+            for node in pr:
+                expect("proof-only-path-nodes", rlp_encode(node) in encs,
+                       lambda: f"after re-pointing the trie at root(T2), get_proof({kk!r}) returned a node that is not on the key's path")
+            got = impl("proof-complete", HexaryTrie.get_from_proof, t1.root_hash, kk, pr)
+            expect_eq("proof-complete", got, m2.get(kk, b""), f"get_from_proof after re-pointing the trie object at root(T2), key {kk!r}")
+        info.label("re-pointed-root")
     if cm is not None:
         cm_exit("squash_changes-exit", cm)
     info.label("script-applied", applied > 0)
